@@ -1,6 +1,7 @@
 use crate::core::Ctx;
 use serde_json::Value;
 
+pub mod c01;
 pub mod c10;
 
 pub const ALL: &[&str] = &[
@@ -9,6 +10,7 @@ pub const ALL: &[&str] = &[
 
 pub fn run(ctx: &mut Ctx) {
     match ctx.id {
+        "C01" => c01::run(ctx),
         "C10" => c10::run(ctx),
         other => {
             eprintln!("{other}: no engine built yet");
@@ -19,6 +21,7 @@ pub fn run(ctx: &mut Ctx) {
 
 pub fn replay(ctx: &mut Ctx, stage: &str, case: &Value) -> Result<(), String> {
     match ctx.id {
+        "C01" => c01::replay(ctx, stage, case),
         "C10" => c10::replay(ctx, stage, case),
         other => Err(format!("{other}: no engine built yet")),
     }
